@@ -235,13 +235,146 @@ def item_bffm2(ex):
     return out
 
 
+def _shift_axioms(ex, k, c, n_before):
+    """10**(a + log10 k) = k * 10**a, instantiated for every pair of exp10 applications (first run, second run)"""
+    if ex.concrete:
+        return
+    apps = ex.ufapps.get('exp10', [])
+    first, second = apps[:n_before], apps[n_before:]
+    for _, a2, v2 in second:
+        for _, a1, v1 in first + second:
+            ex.assume(z3.Implies(a2 == a1 + sx.lift(c), v2 == sx.lift(k) * v1))
+
+
+def _scaled(ex, ei, k):
+    """calibration indices multiplied by k > 0, with log10(k*x) = log10 k + log10 x stated for each of them"""
+    from AEIC.performance.types import ThrustMode, ThrustModeValues
+    c = ufs.log10(k)
+    out = {}
+    for m in ThrustMode:
+        y = ei[m] * k
+        if not ex.concrete:
+            ex.assume(sx.lift(ufs.log10(y)) == sx.lift(ufs.log10(ei[m])) + sx.lift(c))
+        out[m] = y
+    return ThrustModeValues(out), c
+
+
+def item_hcco_ref(ex, case=None):
+    """HC/CO: the real function against the bilinear log-log fit written from the method (slanted line through the
+    idle and approach points, horizontal line at the mean of climb and take-off, SAGE clamping rules, ACRP low-thrust
+    correction, theta^3.3/delta^1.02 ambient correction), and linear scaling with the certification indices."""
+    import AEIC.emissions.ei.hcco as H
+    from AEIC.performance.types import ThrustMode as TM
+    out = []
+    with sx.patched((H, 'np', symnp)):
+        ei, cal = tmv('xei', 0.0, True, 1e3), tmv('ffc', 0.0, True, 50.0)
+        ff = sym('ff_eval', 0.0, 60.0, lo_strict=True)
+        T, P = sym('Tamb', 150.0, 330.0), sym('Pamb', 1000.0, 110000.0)
+        if case is not None and not ex.concrete:
+            # the input space is partitioned over jobs: order of the idle/approach calibration flows, of the idle/approach
+            # indices, and evaluation flow below/above the idle flow
+            rel = {'<': lambda a_, b_: a_ < b_, '>': lambda a_, b_: a_ > b_, '=': lambda a_, b_: a_ == b_}
+            ex.assume(rel[case[0]](cal[TM.APPROACH], cal[TM.IDLE]))
+            ex.assume(rel[case[1]](ei[TM.APPROACH], ei[TM.IDLE]))
+            ex.assume((ff < cal[TM.IDLE]) if case[2] == 'low' else (ff >= cal[TM.IDLE]))
+            if case[2] != 'low':
+                # evaluation flow below / not below the approach and the climb calibration flows
+                ex.assume((ff < cal[TM.APPROACH]) if case[2][1] == '1' else (ff >= cal[TM.APPROACH]))
+                ex.assume((ff < cal[TM.CLIMB]) if case[2][2] == '1' else (ff >= cal[TM.CLIMB]))
+        got = H.EI_HCCO(arr1(ff), ei, cal, arr1(T), arr1(P))[0]
+        # ---- reference
+        a = {m: ufs.log10(ei[m]) for m in TM}
+        f = {m: ufs.log10(cal[m]) for m in TM}
+        den = f[TM.APPROACH] - f[TM.IDLE]
+        s_ = 0.0 if bool(symnp.isclose(den, 0.0)) else (a[TM.APPROACH] - a[TM.IDLE]) / den
+        hor = 0.5 * (a[TM.CLIMB] + a[TM.TAKEOFF])
+        if bool(symnp.isclose(s_, 0.0)):
+            xi = f[TM.APPROACH]
+        else:
+            xi = f[TM.IDLE] + (hor - a[TM.IDLE]) / s_          # where the slanted line meets the horizontal one
+        base_f, base_a = f[TM.IDLE], a[TM.IDLE]
+        if xi > f[TM.CLIMB]:
+            xi, rule = f[TM.CLIMB], 'intersection clamped to the climb flow'
+        elif xi < f[TM.APPROACH] and s_ < 0.0:
+            hor, xi, rule = a[TM.APPROACH], f[TM.APPROACH], 'horizontal line through the approach point'
+        elif s_ >= 0.0:
+            s_, base_f, base_a, xi, rule = 0.0, 0.0, hor, f[TM.APPROACH], 'non-negative slope: horizontal everywhere'
+        else:
+            rule = 'plain bilinear fit'
+        lf = ufs.log10(ff)
+        if lf < xi:
+            want, seg = 10.0 ** (s_ * (lf - base_f) + base_a), 'slanted'
+        else:
+            want, seg = 10.0 ** hor, 'horizontal'
+        if ff < cal[TM.IDLE]:
+            want, seg = want * (1.0 + (-52.0) * (ff - cal[TM.IDLE])), seg + ', low thrust'
+        want = want * ((T / 288.15) ** 3.3) / ((P / 101325.0) ** 1.02)
+        out.append(('C12.hcco.equals_documented_bilinear_fit', f'{rule}; {seg}', near(got, want)))
+        out.append(('C12.hcco.nonnegative', f'{rule}; {seg}', got >= 0.0))
+        # ---- linear scaling with the certification indices
+        k = sym('scale_k', 0.0, 1e3, lo_strict=True)
+        ei2, c = _scaled(ex, ei, k)
+        n1 = 0 if ex.concrete else len(ex.ufapps.get('exp10', []))
+        got2 = H.EI_HCCO(arr1(ff), ei2, cal, arr1(T), arr1(P))[0]
+        _shift_axioms(ex, k, c, n1)
+        out.append(('C12.hcco.scales_linearly_with_certification_indices', f'{rule}; {seg}', near(got2, got * k)))
+    return out
+
+
+def item_bffm2_ref(ex):
+    """BFFM2 NOx: log-log least-squares line through the four certification points evaluated at the sea-level
+    equivalent flow, times exp(H) * sqrt(delta^1.02 / theta^3.3) with the humidity term of the method (60 % relative
+    humidity, Goff-Gratch saturation pressure), and linear scaling with the certification indices."""
+    import AEIC.emissions.ei.nox as N
+    import AEIC.emissions.utils as U
+    from AEIC.performance.types import ThrustMode as TM
+    out = []
+    with sx.patched((N, 'np', symnp), (U, 'np', symnp)):
+        ei, cal = tmv('noxei', 0.0, True, 1e3), tmv('ffc', 0.0, True, 50.0)
+        ff = sym('sls_ff', 0.0, 60.0, lo_strict=True)
+        T, P = sym('Tamb', 200.0, 330.0), sym('Pamb', 1000.0, 110000.0)
+        r = N.BFFM2_EINOx(arr1(ff), ei, cal, arr1(T), arr1(P))
+        got = r.NOxEI[0]
+        # ---- reference
+        modes = [TM.IDLE, TM.APPROACH, TM.CLIMB, TM.TAKEOFF]
+        x = [ufs.log10(cal[m]) for m in modes]
+        y = [ufs.log10(ei[m]) for m in modes]
+        xm, ym = (x[0] + x[1] + x[2] + x[3]) / 4.0, (y[0] + y[1] + y[2] + y[3]) / 4.0
+        sxx = sum(((xi - xm) * (xi - xm) for xi in x[1:]), (x[0] - xm) * (x[0] - xm))
+        sxy = sum(((xi - xm) * (yi - ym) for xi, yi in zip(x[1:], y[1:])), (x[0] - xm) * (y[0] - ym))
+        ex.assume(sxx > 0)                               # the four calibration flows are not all equal (else no line is defined)
+        slope = sxy / sxx
+        icpt = ym - slope * xm
+        sl = 10.0 ** (ufs.log10(ff) * slope + icpt)
+        theta, delta = T / 288.15, P / 101325.0
+        tk = T + 0.01
+        beta = (7.90298 * (1.0 - 373.16 / tk) + 3.00571 + 5.02808 * ufs.log10(373.16 / tk)
+                + 1.3816e-7 * (1.0 - 10.0 ** (11.344 * (1.0 - tk / 373.16))) + 8.1328e-3 * (10.0 ** (3.49149 * (1.0 - 373.16 / tk)) - 1.0))
+        pv = 0.014504 * 10.0 ** beta
+        omega = 0.62198 * 0.6 * pv / (delta * 14.696 - 0.6 * pv)
+        hum = -19.0 * (omega - 0.0063)
+        want = sl * (ufs.exp(hum) * ((delta ** 1.02) / (theta ** 3.3)) ** 0.5)
+        out.append(('C12.bffm2.equals_loglog_regression_with_humidity_correction', '', near(got, want)))
+        # ---- linear scaling
+        k = sym('scale_k', 0.0, 1e3, lo_strict=True)
+        ei2, c = _scaled(ex, ei, k)
+        n1 = 0 if ex.concrete else len(ex.ufapps.get('exp10', []))
+        got2 = N.BFFM2_EINOx(arr1(ff), ei2, cal, arr1(T), arr1(P)).NOxEI[0]
+        _shift_axioms(ex, k, c, n1)
+        out.append(('C12.bffm2.scales_linearly_with_certification_indices', '', near(got2, got * k)))
+    return out
+
+
 ITEMS = {'isa': item_isa, 'sls_mach': item_sls_mach, 'thrust_cat': item_thrust_cat, 'sox': item_sox, 'pmvol': item_pmvol,
-         'scope11': item_scope11, 'hcco': item_hcco, 'bffm2': item_bffm2}
+         'scope11': item_scope11, 'hcco': item_hcco, 'bffm2': item_bffm2, 'hcco_ref': item_hcco_ref, 'bffm2_ref': item_bffm2_ref}
 
 
 def run_item(job):
     name = job['item']
     fn = ITEMS[name]
+    if job.get('case') is not None:
+        import functools
+        fn = functools.partial(fn, case=tuple(job['case']))
     ex = sx.Explorer(purify=False, deadline=time.time() + job.get('deadline_s', 300))
     out = dict(item=name, obligations={}, violations=[], samples=[], distinct=set(), unknown=[], outcomes={})
     for p in ex.explore(fn):
@@ -253,7 +386,7 @@ def run_item(job):
                 d['sat'] += 1
                 out['violations'].append(dict(obligation=oid, detail=f'{type(p.exc).__name__}: {p.exc} {(p.tb or "")[-500:]}', values={k: sx.mval(m, v) for k, v in p.inputs.items()}, tags=dict(item=name, exception=type(p.exc).__name__)))
             continue
-        if name not in ('bffm2', 'hcco'):     # their denominators are only positive under physical side conditions (stated as outside)
+        if name not in ('bffm2', 'hcco', 'bffm2_ref', 'hcco_ref'):     # their denominators are only positive under physical side conditions (stated as outside)
             for cond, what in p.defined:
                 p.result.append((f'C12.{name}.finite', what, sx.SymBool(cond)))
         for oid, detail, val in p.result:
